@@ -7,7 +7,8 @@ From Coq Require Import List NArith Bool.
 From Wbxml Require Import Model.Codec Model.TablesDefs Gen.TablesData Model.Parser Model.Spec Model.TreeBuild Model.TreeConv
      Proofs.ParserDepth Proofs.ParserProofsDoc Proofs.ParserProofsTyped Proofs.ParserProofsWv
      Proofs.TreeBuildProofs Proofs.TreeBuildProofs2 Proofs.TreeBuildProofs3 Proofs.TreeBuildEmbed Proofs.TreeRoundTrip
-     Proofs.TreeRoundTripWide Proofs.ConvRoundTrip Proofs.ConvWideUnforced.
+     Proofs.TreeRoundTripWide Proofs.ConvRoundTrip Proofs.ConvWideUnforced Proofs.TreeRoundTripUnion.
+From Wbxml Require Proofs.EncWbxmlAbs5 Proofs.EncWbxmlDenote5 Proofs.EncWbxmlDenote6 Proofs.EncWbxmlClass6 Proofs.EncWbxmlUnion Model.EncWbxmlTables Model.XmlFront.
 From Wbxml Require Model.EncXml Model.XmlRead Proofs.EncXmlProofs Proofs.EncXmlIndent.
 From Wbxml Require Model.EncWbxml Model.TreeNorm Proofs.EncWbxmlProofs Proofs.EncWbxmlSerialize Proofs.EncWbxmlDenote.
 From Wbxml Require Model.EncWbxmlEvents Proofs.EncWbxmlAbs Proofs.EncWbxmlDenote2 Proofs.EncWbxmlTblOk Proofs.EncWbxmlDenote3.
@@ -254,6 +255,89 @@ Proof.
   split; [vm_compute; reflexivity|]. eexists. split; [vm_compute; reflexivity|].
   split; [eexists; split; [vm_compute; reflexivity|vm_compute; discriminate]|]. split; vm_compute; reflexivity.
 Qed.
+
+(* C03b (8) — the round trip on the UNION fragment of C06 (C06_strict_decoding_yields_normalised_source: every language class -
+   Wireless Village, DRMREL, SyncML, OTA settings, all others incl. SI / EMN; typed content, binary content, CDATA sections,
+   embedded trees), for documents WITHOUT an element named Data, language forced.  tn_union (Proofs/TreeRoundTripUnion.v):
+     element         TElt (tag_event tag) attributes-with-CANONICAL-values (acan_u: canon_dt on %Datetime attributes, the OTA icon's
+                     base64, else the value) (merge_text children);
+     text            the text node of the character data the decoder reports (tev_u): canon_wv_int / canon_wv_date (Wireless
+                     Village integer / date elements), canon_b64 (DRMREL KeyValue), mime_of (MetInf Type), the base64 text of a
+                     binary-flagged element's octets, otherwise the trimmed text (nothing when blank and keep_ws is off);
+     CDATA section   ONE text node with its text (LF -> CR LF in SyncML): outside <Data> the builder creates no CDATA node;
+     embedded tree   ONE text node with the embedded document's octets: outside <Data> nothing is parsed;
+     adjacent texts  one node (merge_text).
+   PARTIAL in: tree_ok6 and the side conditions of the encoder's theorem, output below 4 GiB, no element named Data (then the
+   SyncML data-type rule of the builder decides: the C03b_data_rule theorems), language forced. *)
+Theorem C03b_roundtrip_union_partial : forall tblb TBL L o tag attrs ch bs,
+  let e := EncWbxml.enc_env (EncWbxmlDenote2.to_blang L) o in
+  EncWbxmlDenote2.vals_ok L = true -> EncWbxmlUnion.side_u L = true -> EncWbxmlAbs5.tag_tbl_ok e = true ->
+  EncWbxmlDenote6.tree_ok6 L (EncWbxmlUnion.aok_u L) (EncWbxmlUnion.tok_u L (EncWbxml.o_keep_ws o)) (EncWbxmlUnion.cok_plain L)
+                           (EncWbxmlUnion.eok_plain tblb e L) (EncWbxml.is_syncml (EncWbxml.e_lang e)) 0 true None (EncWbxml.NElt tag attrs ch) = true ->
+  find (fun x => l_id x =? l_id L) TBL = Some L -> l_id L <> 0 ->
+  EncWbxml.o_version o < 4 -> EncWbxml.header_public_id e < 4294967296 -> EncWbxml.header_public_id e <> 0 ->
+  (match EncWbxmlAbs.header_pid e with Some p => EncWbxmlDenote2.okb p = true | None => True end) ->
+  EncWbxml.len bs < 4294967296 ->
+  EncWbxml.enc_wbxml tblb (EncWbxmlDenote2.to_blang L) o [EncWbxml.NElt tag attrs ch] = EncWbxml.EOk bs ->
+  no_data (EncWbxmlClass6.doc_events6 tblb L e (EncWbxmlUnion.acan_u L) (EncWbxmlUnion.tev_u L e (EncWbxml.o_keep_ws o)) (EncWbxml.NElt tag attrs ch)) = true ->
+  forall ef, tree_from_wbxml TBL (l_id L) 0 ef bs = BOk (mk_wtree (l_id L) 106 (hd_error (tn_union tblb L o (EncWbxml.NElt tag attrs ch)))).
+Proof. exact roundtrip_union. Qed.
+Print Assumptions C03b_roundtrip_union_partial.
+
+(* the builder's side of the SyncML data-type rule (wbxml_tree_clb_wbxml_characters), for an element with ONE run of character
+   data below a parent p: by the type syncml_data_type finds for the new element's frame, the element becomes
+   D_NORMAL  <t>text</t>;   D_CDATA (vObject / clear types, or the Add/Replace hack)  <t><![CDATA[text]]></t> - the CDATA node is
+   RE-CREATED by the builder;   D_WBXML  the embedded document parsed (language not forced) and built one level down: a sub-tree
+   node - or, beyond WBXML_MAX_EMBEDDED_DEPTH, the text *)
+Theorem C03b_data_rule_normal : forall tbl lv t a b st p up r, b_stack st = p :: up -> f_cdata p = None ->
+  syncml_data_type (mk_frame t a [] None :: p :: up) = D_NORMAL ->
+  build_from tbl lv (EvStartElt t a :: EvChars b :: EvEndElt t :: r) st = build_from tbl lv r (after_child st p up (TElt t a [TText b])).
+Proof. exact data_rule_normal. Qed.
+Print Assumptions C03b_data_rule_normal.
+Theorem C03b_data_rule_recreates_cdata : forall tbl lv t a b st p up r, b_stack st = p :: up -> f_cdata p = None ->
+  syncml_data_type (mk_frame t a [] None :: p :: up) = D_CDATA ->
+  build_from tbl lv (EvStartElt t a :: EvChars b :: EvEndElt t :: r) st = build_from tbl lv r (after_child st p up (TElt t a [TCData [TText b]])).
+Proof. exact data_rule_cdata. Qed.
+Print Assumptions C03b_data_rule_recreates_cdata.
+Theorem C03b_data_rule_embedded_document : forall tbl lv t a b st p up r evs' st', b_stack st = p :: up -> f_cdata p = None ->
+  syncml_data_type (mk_frame t a [] None :: p :: up) = D_WBXML ->
+  parse_with tbl 0 (b_charset st) (S (length b)) b = POk evs' -> build_from tbl lv evs' st_init = BOk st' ->
+  build_from tbl (S lv) (EvStartElt t a :: EvChars b :: EvEndElt t :: r) st
+  = build_from tbl (S lv) r (after_child st p up (TElt t a [TSub (wt_lang (tree_of_state st')) (wt_charset (tree_of_state st')) (wt_root (tree_of_state st'))])).
+Proof. exact data_rule_embedded. Qed.
+Print Assumptions C03b_data_rule_embedded_document.
+Theorem C03b_data_rule_embedded_limit : forall tbl t a b st p up r, b_stack st = p :: up -> f_cdata p = None ->
+  syncml_data_type (mk_frame t a [] None :: p :: up) = D_WBXML ->
+  build_from tbl 0 (EvStartElt t a :: EvChars b :: EvEndElt t :: r) st = build_from tbl 0 r (after_child st p up (TElt t a [TText b])).
+Proof. exact data_rule_embedded_limit. Qed.
+Print Assumptions C03b_data_rule_embedded_limit.
+
+(* the hypotheses are satisfiable: Service Indication with a %Datetime attribute (written as OPAQUE, reported in canonical form)
+   and an attribute value token *)
+Definition exu_L : lang := nth 8 main_table (mk_lang 0 0 None None None None None None None None).
+Definition exu_o := EncWbxml.mk_opts 2 false false false.
+Definition exu_e := EncWbxml.enc_env (EncWbxmlDenote2.to_blang exu_L) exu_o.
+Definition exu_root : EncWbxml.node :=
+  EncWbxml.NElt (EncWbxml.TagTok 0 5 0 (XmlFront.bs "si")) []
+    [EncWbxml.NElt (EncWbxml.TagTok 0 6 0 (XmlFront.bs "indication"))
+       [EncWbxml.mk_at (EncWbxml.AttrTok 0 13 (XmlFront.bs "href") (Some (XmlFront.bs "http://www."))) (XmlFront.bs "http://www.xyz.com/");
+        EncWbxml.mk_at (EncWbxml.AttrTok 0 10 (XmlFront.bs "created") None) (XmlFront.bs "1999-06-25T15:23:15Z")]
+       [EncWbxml.NText (XmlFront.bs " hello ")]].
+Definition exu_w : bytes :=
+  [2; 5; 106; 0; 69; 198; 13; 3; 120; 121; 122; 0; 133; 10; 195; 7; 25; 153; 6; 37; 21; 35; 21; 1; 3; 104; 101; 108; 108; 111; 0; 1; 1].
+Example C03b_ex_roundtrip_union :
+  l_id exu_L = 1301 /\ EncWbxmlDenote2.vals_ok exu_L = true /\ EncWbxmlUnion.side_u exu_L = true /\ EncWbxmlAbs5.tag_tbl_ok exu_e = true /\
+  EncWbxmlDenote6.tree_ok6 exu_L (EncWbxmlUnion.aok_u exu_L) (EncWbxmlUnion.tok_u exu_L false) (EncWbxmlUnion.cok_plain exu_L)
+                           (EncWbxmlUnion.eok_plain EncWbxmlTables.main_btable exu_e exu_L) false 0 true None exu_root = true /\
+  EncWbxml.enc_wbxml EncWbxmlTables.main_btable (EncWbxmlDenote2.to_blang exu_L) exu_o [exu_root] = EncWbxml.EOk exu_w /\
+  no_data (EncWbxmlClass6.doc_events6 EncWbxmlTables.main_btable exu_L exu_e (EncWbxmlUnion.acan_u exu_L) (EncWbxmlUnion.tev_u exu_L exu_e false) exu_root) = true /\
+  tree_from_wbxml main_table 1301 0 1 exu_w = BOk (mk_wtree 1301 106 (hd_error (tn_union EncWbxmlTables.main_btable exu_L exu_o exu_root))) /\
+  tn_union EncWbxmlTables.main_btable exu_L exu_o exu_root
+  = [TElt (TagTok 0 5 (XmlFront.bs "si")) []
+       [TElt (TagTok 0 6 (XmlFront.bs "indication"))
+          [(AttrTok 0 13 (XmlFront.bs "href"), XmlFront.bs "http://www.xyz.com/"); (AttrTok 0 10 (XmlFront.bs "created"), XmlFront.bs "1999-06-25T15:23:15Z")]
+          [TText (XmlFront.bs "hello")]]].
+Proof. repeat (split; [vm_compute; reflexivity|]). vm_compute. reflexivity. Qed.
 
 (* C05c, without the restriction to Data-free documents — PARTIAL only in the generator's hypotheses (node_ok_g:
    names are XML names, text is XML characters, CDATA payloads ...; properties of the document's strings that WBXML
